@@ -454,18 +454,34 @@ def run_impl(cfg, ops, chdir, hook=None, pform=None):
 
 def run_impl_in_turns(items, rng):
     """items: list of (cfg, ops, chdir); the histories are executed in ONE process with all their writers
-    alive, one op of a randomly chosen history at a time; returns [(reports, writer)] in the order given"""
-    gens = [impl_stepper(cfg, ops, chdir) for cfg, ops, chdir in items]
-    out = [None] * len(gens)
-    live = list(range(len(gens)))
-    while live:
-        k = rng.choice(live)
-        try:
-            next(gens[k])
-        except StopIteration as e:
-            out[k] = e.value
-            live.remove(k)
+    alive, one op of a randomly chosen history at a time; returns [(reports, writer)] in the order given.
+    Every other group of two or more works with the FIRST member's channel directory as the process's working
+    directory (a recorder started from inside its data directory): names the library resolves against the
+    working directory instead of the channel directory then find the other channel's subdirectories.  The
+    directories are passed as absolute paths in that case."""
+    _TURNS[0] += 1
+    in_cwd = len(items) >= 2 and _TURNS[0] % 2 == 0
+    cwd0 = os.getcwd()
+    if in_cwd:
+        os.makedirs(items[0][2], exist_ok=True)
+        os.chdir(items[0][2])
+    try:
+        gens = [impl_stepper(cfg, ops, chdir, pform=(0 if in_cwd else None)) for cfg, ops, chdir in items]
+        out = [None] * len(gens)
+        live = list(range(len(gens)))
+        while live:
+            k = rng.choice(live)
+            try:
+                next(gens[k])
+            except StopIteration as e:
+                out[k] = e.value
+                live.remove(k)
+    finally:
+        os.chdir(cwd0)
     return out
+
+
+_TURNS = [0]
 
 
 FILE_RE = re.compile(r"^(tmp\.)?rf@(\d+)\.(\d{3})\.h5$")
